@@ -371,3 +371,177 @@ def _strong_tree(model, v):
         return True, 'n/a'
     return kit.run_strong_test('test_c10_withitems_subwf_resume.py',
                                timeout=120)
+
+
+# ---------------------------------------------------------------------------
+# C10.W  pause / resume while a with-items task or a retry is in flight
+# ---------------------------------------------------------------------------
+PAUSE_ITEMS = """
+version: '2.0'
+wf:
+  output:
+    res: <% $.get(res, none) %>
+  tasks:
+    t:
+      with-items: i in [0, 1, 2]
+@@CONC@@
+      action: std.echo output=<% $.i %>
+      publish:
+        res: <% task().result %>
+      on-success: after
+    after:
+      action: std.noop
+"""
+
+PAUSE_RETRY = """
+version: '2.0'
+wf:
+  tasks:
+    t:
+      action: std.noop
+      retry:
+        count: 2
+        delay: 1
+      wait-after: 1
+      on-success: after
+      on-error: failed
+    after:
+      action: std.noop
+    failed:
+      action: std.noop
+"""
+
+
+def _c10_w_case(kind, conc, max_step, preemptions):
+    def case():
+        from vt.world import World
+        from vt.explorer import Explorer
+        from mistral_lib import actions as ml
+        if kind == 'items':
+            line = '      concurrency: %d' % conc if conc else ''
+            text = PAUSE_ITEMS.replace('@@CONC@@', line)
+        else:
+            text = PAUSE_RETRY
+        sig = 'C10.W:%s%s' % (kind, conc or '')
+        w = World([text])
+        with w:
+            ex = Explorer(w, sig, preemptions=preemptions)
+            ex.rerun_allowed = True
+            st = {'n': 0}
+
+            def result_for(ev):
+                tid = ev.payload['exec_ctx'].get('task_execution_id')
+                trow = [t for t in w.rows('TaskExecution')
+                        if t['id'] == tid][0]
+                if trow['name'] != 't':
+                    return ml.Result(data='ok')
+                if kind == 'items':
+                    me = [a for a in w.rows('ActionExecution')
+                          if a['id'] == ev.payload['id']][0]
+                    i = (me['runtime_context'] or {}).get('index')
+                    return ml.Result(data='r%s' % i)
+                k = len([a for a in w.actions(tid)
+                         if a['id'] != ev.payload['id']
+                         and a['state'] != 'RUNNING'])
+                out = ex.outcome('attempt%d' % k)
+                return ml.Result(data='ok') if out == 'SUCCESS' \
+                    else ml.Result(error='boom')
+            ex.result_for = result_for
+            wid = w.start('wf')
+            ex.check_invariants()
+            held = {}
+
+            def pause(ex_, w_):
+                if w_.wf_ex(wid)['state'] != 'RUNNING':
+                    return
+                ex_.operator('pause_workflow', wid)
+                if w_.wf_ex(wid)['state'] == 'PAUSED':
+                    reach('paused')
+                    held['tasks'] = {t['id'] for t in w_.tasks(wid)}
+            at = choice('pause_at', list(range(0, max_step + 1)))
+            scenario.run_with_ops(ex, w, [[at, pause]])
+            if 'tasks' in held and w.wf_ex(wid)['state'] == 'PAUSED':
+                now = {t['id'] for t in w.tasks(wid)}
+                check(now == held['tasks'], 'task-created-while-paused',
+                      {'signature': sig + ':created-while-paused',
+                       'trace': ex.trace[-25:]})
+                reach('resumed-from-pause')
+                ex.operator('resume_workflow', wid)
+                scenario.run_with_ops(ex, w, [])
+            reach('quiescent')
+            t = w.task('t', wid)
+            wf = w.wf_ex(wid)
+            acts = w.actions(t['id'])
+            info = {'trace': ex.trace[-35:], 'task': t['state'],
+                    'wf': wf['state'], 'outcomes': dict(ex.outcomes)}
+            if kind == 'items':
+                per = {}
+                for a in acts:
+                    i = a['runtime_context']['index']
+                    per[i] = per.get(i, 0) + 1
+                check(wf['state'] == 'SUCCESS' and t['state'] == 'SUCCESS'
+                      and w.task('after', wid) is not None,
+                      'run-does-not-finish-like-an-unpaused-run',
+                      dict(info, signature=sig + ':final'))
+                check(per == {0: 1, 1: 1, 2: 1},
+                      'item-execution-count-differs-from-unpaused-run',
+                      dict(info, signature=sig + ':items', per=per))
+                check((wf['output'] or {}).get('res') == ['r0', 'r1', 'r2'],
+                      'output-differs-from-unpaused-run',
+                      dict(info, signature=sig + ':output',
+                           output=wf['output']))
+            else:
+                outs = [ex.outcomes.get('attempt%d' % k) for k in range(3)]
+                n_att = 3
+                for k, o in enumerate(outs):
+                    if o == 'SUCCESS':
+                        n_att = k + 1
+                        break
+                want = 'SUCCESS' if 'SUCCESS' in outs[:n_att] else 'ERROR'
+                check(len(acts) == n_att, 'attempt-count-differs-from-'
+                      'unpaused-run',
+                      dict(info, signature=sig + ':attempts',
+                           n=len(acts), want=n_att))
+                check(t['state'] == want and
+                      w.task('after' if want == 'SUCCESS' else 'failed',
+                             wid) is not None and
+                      wf['state'] == 'SUCCESS',
+                      'run-does-not-finish-like-an-unpaused-run',
+                      dict(info, signature=sig + ':final', want=want))
+    return case
+
+
+@obligation(
+    'C10.W', engine='symx+world(minidb)',
+    functions=['mistral.engine.workflows:Workflow.pause',
+               'mistral.engine.workflows:Workflow.resume',
+               'mistral.engine.tasks:WithItemsTask.on_action_complete',
+               'mistral.engine.tasks:WithItemsTask._schedule_actions',
+               'mistral.engine.policies:RetryPolicy.after_task_complete',
+               'mistral.engine.policies:WaitAfterPolicy.after_task_complete',
+               'mistral.engine.policies:_continue_task',
+               'mistral.engine.policies:_complete_task'],
+    bounds={'quick': 'a with-items task (3 items; no concurrency, '
+                     'concurrency 1, 2) and a task with retry (count 2) + '
+                     'wait-after whose attempt outcomes are symbolic; the '
+                     'pause is issued before any of the first 12 deliveries '
+                     '(solver choice), everything in flight is delivered, '
+                     'then resume; FIFO',
+            'thorough': 'first 18 deliveries, <= 1 out-of-order delivery'},
+    stubs=['minidb', 'QueueRPC', 'FakeScheduler (timers are events)',
+           'FakeExecutor', 'post-commit queue inline', 'real YAQL'],
+    outside='failing items; with-items over sub-workflows (C10.T)',
+    timeout=(400, 2400))
+def c10_w(ctx):
+    """while PAUSED no new task appears (remaining items and retries of the
+    existing task may proceed); after resume the run finishes like an
+    unpaused one: every item once with ordered results / the same number of
+    attempts and the same route"""
+    boot()
+    ms = ctx.pick(12, 18)
+    k = ctx.pick(0, 1)
+    for conc in (0, 1, 2):
+        yield Case('items/conc%d' % conc, _c10_w_case('items', conc, ms, k),
+                   needed=['paused', 'resumed-from-pause', 'quiescent'])
+    yield Case('retry', _c10_w_case('retry', 0, ms, k),
+               needed=['paused', 'resumed-from-pause', 'quiescent'])
